@@ -34,8 +34,9 @@ pub fn in_support(power: f64, y: &[f64]) -> bool {
 }
 
 
-pub const ISO_TIMEOUT_MS: u64 = 2000;
-/// longest run time of an isolated fit that DID return (evidence for the timeout margin)
+/// CPU-time limit of an isolated fit
+pub const ISO_TIMEOUT_MS: u64 = 3000;
+/// largest CPU time (ms, last reading before exit) of an isolated fit that DID return (evidence for the margin)
 pub static MAX_CHILD_MS: std::sync::atomic::AtomicU64 = std::sync::atomic::AtomicU64::new(0);
 
 pub fn needs_isolation(case: &TwCase) -> bool {
@@ -112,22 +113,38 @@ pub fn fit_isolated(case: &TwCase) -> FitRes {
         .stderr(Stdio::null())
         .spawn()
         .expect("spawn child");
+    // The limit is on the CPU time of the child (utime + stime from /proc/<pid>/stat, USER_HZ = 100), not on
+    // wall time: a fit that loops forever burns CPU without bound, a healthy fit needs a few 10 ms of CPU
+    // however loaded the machine is, so the verdict does not depend on the load. (Wall backstop: 10 min.)
     let t0 = std::time::Instant::now();
+    let pid = child.id();
+    let cpu_ms = |pid: u32| -> Option<u64> {
+        let st = std::fs::read_to_string(format!("/proc/{}/stat", pid)).ok()?;
+        let rest = &st[st.rfind(')')? + 1..];
+        let tok: Vec<&str> = rest.split_whitespace().collect();
+        let ut: u64 = tok.get(11)?.parse().ok()?;
+        let stt: u64 = tok.get(12)?.parse().ok()?;
+        Some((ut + stt) * 10)
+    };
+    let mut last_cpu = 0u64;
     loop {
         match child.try_wait() {
             Ok(Some(_)) => break,
             Ok(None) => {
-                if t0.elapsed().as_millis() as u64 > ISO_TIMEOUT_MS {
+                if let Some(c) = cpu_ms(pid) {
+                    last_cpu = c;
+                }
+                if last_cpu > ISO_TIMEOUT_MS || t0.elapsed().as_secs() > 600 {
                     let _ = child.kill();
                     let _ = child.wait();
                     return FitRes::Timeout;
                 }
-                std::thread::sleep(std::time::Duration::from_micros(500));
+                std::thread::sleep(std::time::Duration::from_millis(1));
             }
             Err(e) => panic!("waiting for child: {}", e),
         }
     }
-    MAX_CHILD_MS.fetch_max(t0.elapsed().as_millis() as u64, std::sync::atomic::Ordering::Relaxed);
+    MAX_CHILD_MS.fetch_max(last_cpu, std::sync::atomic::Ordering::Relaxed);
     let outp = child.wait_with_output().expect("child output");
     let txt = String::from_utf8_lossy(&outp.stdout);
     let v: serde_json::Value = match serde_json::from_str(txt.trim()) {
@@ -252,7 +269,7 @@ pub fn run(case: &TwCase, viols: &mut Vec<Violation>) -> Out {
             viols.push(Violation::new(
                 format!("tweedie.fit.does_not_terminate.{}.{}", power_class(case.power), case.link),
                 format!(
-                    "fit (max_iter {}) did not return within {} ms in a child process (healthy fits of this size take < 50 ms); targets are inside the support and the own Newton solve finds a stationary point at {:?}",
+                    "fit (max_iter {}) was still running after {} ms of CPU time in a child process (healthy fits of this size need < 100 ms); targets are inside the support and the own Newton solve finds a stationary point at {:?}",
                     case.max_iter, ISO_TIMEOUT_MS, own.x
                 ),
                 cj(),
